@@ -45,6 +45,10 @@ def generate(rng, tier):
         elif i % 2 == 0:
             case["autostart"] = True           # no explicit start time: the composition takes the earliest component's
         cases.append(case)
+    # a pull-based component reached twice within one pass of the driver (two outputs / one output read twice / in series)
+    for g in (sc.gen_relay2, sc.gen_relay_twice, sc.gen_two_relays, sc.gen_pull_ring):
+        for _ in range(4 if tier == "quick" else 60):
+            cases.append(g(rng))
     # finam's OWN components (generators, callback component, time trigger, debug consumer) with timedelta and CALENDAR
     # steps: run by the real driver, judged by the property monitor only (no Coq model of these classes)
     for _ in range(24 if tier == "quick" else 400):
